@@ -57,7 +57,8 @@ DelivCats(m) ==
                   ELSE {"C08"})
             \cup (IF ~okStatus \/ m.status \notin {200, 206} \/ creq[m.c].kind = "head" THEN {}
                   ELSE IF bodyOK /\ metaOK THEN {}
-                  ELSE IF m.src = "store" THEN (IF WasFollower(m.c) THEN {"C01", "C05"} ELSE {"C01"})
+                  \* (a wrong body handed out by a flight that several clients shared is also a coalescing failure)
+                  ELSE IF m.src = "store" THEN (IF WasFollower(m.c) \/ Cardinality(last') > 1 THEN {"C01", "C05"} ELSE {"C01"})
                   ELSE {"C08"})
             \cup (IF okStatus /\ m.label # "ANY" /\ m.status \in {200, 206} /\ ((o.xcache = "HIT") # (m.label = "HIT"))
                   THEN {"C03"} ELSE {})
@@ -97,7 +98,11 @@ ContactCats(x) ==
                 reqOK == /\ o.r = ct.r
                          /\ o.method = (CASE ct.kind = "head" -> "HEAD" [] ct.kind = "post" -> "POST" [] OTHER -> "GET")
                          /\ (ct.kind = "range") = (o.range # "")
-            IN (IF inmOK /\ imsOK /\ ~o.ifmatch THEN {} ELSE {"C06"}) \cup (IF reqOK THEN {} ELSE {"C08"})
+                \* the re-fetch after a 304 for an entry that has vanished must be unconditional, or the client is answered
+                \* with an error (C09) although the origin is fine
+                vanishedRefetch == Is("reply") /\ Line.status = 304 /\ ~store[ct.r].present
+            IN (IF inmOK /\ imsOK /\ ~o.ifmatch THEN {} ELSE IF vanishedRefetch THEN {"C06", "C09"} ELSE {"C06"})
+               \cup (IF reqOK THEN {} ELSE {"C08"})
 \* a request at the origin that the specification does not send
 UnexpectedOpenCats(i, rxv) ==
     LET o == Opened[i] IN
@@ -131,7 +136,7 @@ StoredCats ==
     UnionAll({IF ObservedStored(r) = store'[r].present /\ (store'[r].present => ObservedVer(r) = store'[r].ver)
               THEN {} ELSE {"C04"} : r \in Res})
 
-StepCats(rxv) ==
+StepCats0(rxv) ==
     IF StoredCats # {} THEN StoredCats ELSE
     UnionAll({DelivCats(m) : m \in last'})
     \cup UnionAll({ExtraCats(Deliv[i].c) : i \in {j \in 1..Len(Deliv) : ~\E m \in last' : m.c = Deliv[j].c}})
@@ -139,6 +144,11 @@ StepCats(rxv) ==
     \cup UnionAll({UnexpectedOpenCats(i, rxv) : i \in 1..Len(Opened)})
     \cup WaitingCats
     \cup MetricCats
+
+\* whatever goes wrong in the step that answers a revalidation (store not renewed / not replaced, old body served,
+\* wrong label) also concerns C06
+StepCats(rxv) == LET c == StepCats0(rxv) IN
+                 IF c # {} /\ c # {"metrics"} /\ rxv # 0 /\ contacts[rxv].reval THEN c \cup {"C06"} ELSE c
 
 tvars == <<vars, l, bad, bads>>
 ConsumeX(rxv) ==
